@@ -49,6 +49,11 @@ func main() {
 		code := runProperty(*prop, "quick", *repo, *verif, "", true, false, v.Obligation.Key)
 		os.Exit(code)
 	}
+	if *prop == "dbg-cty" {
+		p, _ := loadProg(*repo, "", false)
+		dbgCty(p)
+		return
+	}
 	if *prop == "dbg-e2" {
 		p, _ := loadProg(*repo, "", false)
 		dbgMapRanges(p)
